@@ -406,6 +406,43 @@ pub fn run(ctx: &mut Ctx) -> Result<(), Violation> {
     });
     ctx.stage("repo-formula-files-and-mutations", false, r)?;
 
+    // (3a') large texts: 1 KiB .. 300 KiB (thorough 1.2 MiB), separators of every kind between the tokens
+    let mut ljobs: Vec<(usize, usize, usize, usize)> = Vec::new();
+    for (entries, flen) in ctx.tier.pick(
+        vec![(10usize, 60usize), (80, 100), (80, 1000), (30, 5000), (200, 1500)],
+        vec![(10usize, 60usize), (80, 50), (80, 100), (80, 1000), (30, 5000), (200, 1500), (9, 8000), (17, 65000), (300, 4000)],
+    ) {
+        for filler in 0..5usize {
+            for shape in 0..3usize {
+                ljobs.push((entries, filler, flen, shape));
+            }
+        }
+    }
+    let r = par_jobs(ctx, &ljobs, |(entries, filler, flen, shape), st| {
+        let text = large_text(*entries, *filler, *flen, *shape);
+        st.eval();
+        st.class(match text.len() {
+            0..=4095 => "large-text<4KiB",
+            4096..=8191 => "large-text 4..8KiB",
+            8192..=65535 => "large-text 8..64KiB",
+            _ => "large-text>=64KiB",
+        });
+        let cj = json!({"kind": "large-text", "entries": entries, "filler": filler, "filler_len": flen, "shape": shape});
+        if text.len() >= 4096 && st.nontrivial(fnv(cj.to_string().as_bytes())) {
+            st.nt_sample(|| cj.clone());
+        }
+        let d = diff_text(text.as_bytes()).map_err(|mut v| {
+            // keep the replay file small: the text is regenerated from its parameters
+            v.case = cj.clone();
+            v
+        })?;
+        if !d.accepted {
+            return Err(Violation::new("HARNESS: a generated large text is not a sentence".to_string(), cj));
+        }
+        Ok(())
+    });
+    ctx.stage("large-texts-with-long-separators", true, r)?;
+
     // (3b) random soups, mutated valid formulas, decorated valid formulas
     let cases = ctx.tier.cases(150_000, 6_000_000);
     let r = par_random(ctx, "random-texts", cases, 200, |tape, st| {
@@ -466,7 +503,63 @@ pub fn run(ctx: &mut Ctx) -> Result<(), Violation> {
     Ok(())
 }
 
+/// A sentence blown up to `~ entries * filler_len` bytes by separators the lexical rules define as
+/// such: comments (with line breaks, spaces, token-like words inside), white-space runs, stray characters.
+pub fn large_text(entries: usize, filler: usize, filler_len: usize, shape: usize) -> String {
+    let fill = |i: usize| -> String {
+        let n = filler_len + (i * 13) % 17;
+        match filler % 5 {
+            0 => format!("\"{}\n| z\"", " ".repeat(n)),
+            1 => format!("\"{}\"", "x".repeat(n)),
+            2 => format!("{}\n{}", " ".repeat(n / 2), "\t".repeat(n / 2)),
+            3 => format!("\"{}\"", "& y\n".repeat(n / 4 + 1)),
+            _ => format!(" {} ", "\u{a7}$@".repeat(n / 4 + 1)),
+        }
+    };
+    let mut out = String::new();
+    match shape % 3 {
+        0 => {
+            out.push('[');
+            for i in 0..entries {
+                out.push_str(&format!("x{}", i));
+                if i + 1 < entries {
+                    out.push(',');
+                }
+                out.push_str(&fill(i));
+            }
+            out.push_str("] >= 1");
+        }
+        1 => {
+            for i in 0..entries {
+                out.push_str(&format!("x{} ", i));
+                out.push_str(&fill(i));
+                out.push_str(if i + 1 < entries { ["&", "|", "=>", "^"][i % 4] } else { "" });
+                out.push_str(&fill(i + 1));
+            }
+        }
+        _ => {
+            out.push_str("exists ");
+            for i in 0..entries {
+                out.push_str(&format!("x{}", i));
+                out.push_str(&fill(i));
+                if i + 1 < entries {
+                    out.push(',');
+                }
+            }
+            out.push_str(&format!(" # x0 {} & x{}", fill(3), entries - 1));
+        }
+    }
+    out
+}
+
 pub fn replay(case: &Value) -> Check {
+    if case["kind"].as_str() == Some("large-text") {
+        let g = |k: &str| case[k].as_u64().map(|x| x as usize);
+        return match (g("entries"), g("filler"), g("filler_len"), g("shape")) {
+            (Some(e), Some(f), Some(l), Some(sh)) => diff_text(large_text(e, f, l, sh).as_bytes()).map(|_| ()),
+            _ => Err(Violation::new("unreadable replay case", case.clone())),
+        };
+    }
     if case["kind"].as_str() == Some("with-ordering") {
         let names: Vec<String> = case["ordering"].as_array().map(|a| a.iter().filter_map(|x| x.as_str().map(|s| s.to_string())).collect()).unwrap_or_default();
         return match case["text"].as_str() {
